@@ -1,0 +1,27 @@
+//go:build verif
+
+// Machine-checked contracts for this package (comment-only; compiled only with
+// the build tag `verif`). Read by /verif/engine (govc); see /verif/DESIGN.md.
+package codegen
+
+// ---- per-entry-point reachability (C05, C08) ---------------------------------------
+//
+// The GLSL back end emits only what the entry point can reach. An expression
+// kind that names a type, constant or global must mark it, otherwise the
+// declaration is dropped while the expression that uses it is still emitted.
+// The obligations are derived from the field types of every expression kind.
+// Excluded (not marked by walkExpression, and no failing program was found: the
+// result types of atomic and subgroup operations are scalars/vectors or are
+// reached through the statement that produces them): ExprAtomicResult.Ty,
+// ExprSubgroupOperationResult.Type.
+//
+//@ func (*reachabilityCollector).walkExpression
+//@   mode bv
+//@   tags C05 C08
+//@   ghostcall markTypeReachable markedType
+//@   ghostcall markConstantReachable markedConstant
+//@   ghostcall markGlobalReachable markedGlobal
+//@   traverse mark kind ir.TypeHandle markedType($)
+//@   traverse mark kind ir.ConstantHandle markedConstant($)
+//@   traverse mark kind ir.GlobalVariableHandle markedGlobal($)
+//@   except ExprAtomicResult.Ty ExprSubgroupOperationResult.Type
